@@ -209,7 +209,8 @@ Let kv2 := put_all sec (combine (nseq 0 BloomBitLength) (gen_vectors bl)) kv1.
 
 Lemma put_index_ok : put_bloom_index kv1 bl sec = Some kv2.
 Proof.
-  unfold put_bloom_index. rewrite bl_length, N.eqb_refl. reflexivity.
+  unfold put_bloom_index. rewrite bl_length, N.eqb_refl.
+  change (BloomBitsBlocks mod 8 =? 0) with true. cbn [negb]. unfold kv2, put_all. reflexivity.
 Qed.
 
 Lemma kv2_bloom k : kv_get kv2 (bloom_key k) = kv_get kv1 (bloom_key k).
